@@ -46,3 +46,32 @@ T('C08', 'aspect-merged-branches', 'aspect.py', '                if _aspect < 0:
 T('C08', 'curv-rearranged', 'curvature.py', 'out[y, x] = -2 * (d + e) * 100 / (cellsize * cellsize)', 'out[y, x] = -200 * (d + e) / cellsize ** 2')
 T('C08', 'slope-full-nan', 'slope.py', '    out = np.zeros_like(data, dtype=np.float32)\n    out[:] = np.nan\n    rows, cols = data.shape\n    for y in range(1, rows - 1):',
   '    out = np.full(data.shape, np.nan, dtype=np.float32)\n    rows, cols = data.shape\n    for y in range(1, rows - 1):')
+
+# ------------------------------------------------------------------------------------------------ C13
+M('C13', 'nbr-args-swapped', 'multispectral.py', "out = mapper(nir_agg)(nir_agg.data.astype('f4'), swir2_agg.data.astype('f4'))",
+  "out = mapper(nir_agg)(swir2_agg.data.astype('f4'), nir_agg.data.astype('f4'))", 'M1')
+M('C13', 'ndmi-wrong-band', 'multispectral.py', "out = mapper(nir_agg)(nir_agg.data.astype('f4'), swir1_agg.data.astype('f4'))",
+  "out = mapper(nir_agg)(nir_agg.data.astype('f4'), nir_agg.data.astype('f4'))", 'M1')
+M('C13', 'evi-dask-band-order', 'multispectral.py', "out = da.map_blocks(_evi_cpu, nir_data, red_data, blue_data,", "out = da.map_blocks(_evi_cpu, nir_data, blue_data, red_data,", 'M1')
+M('C13', 'sipi-guard-numerator', 'multispectral.py', "            numerator = nir - blue\n            denominator = nir - red\n            if denominator != 0.0:",
+  "            numerator = nir - blue\n            denominator = nir - red\n            if numerator != 0.0:", 'M2')
+M('C13', 'gci-no-guard', 'multispectral.py', "            if green != 0:\n                out[y, x] = nir / green - 1", "            if True:\n                out[y, x] = nir / green - 1", 'M2')
+M('C13', 'ndvi-no-cast', 'multispectral.py', "out = mapper(nir_agg)(nir_agg.data.astype('f4'), red_agg.data.astype('f4'))", "out = mapper(nir_agg)(nir_agg.data, red_agg.data.astype('f4'))", 'M3')
+M('C13', 'ebbi-no-sqrt', 'multispectral.py', "denominator = 10 * np.sqrt(swir + tir)", "denominator = 10 * (swir + tir)", 'M1')
+M('C13', 'evi-sign-c2', 'multispectral.py', "denominator = nir + c1 * red - c2 * blue + soil_factor", "denominator = nir + c1 * red + c2 * blue + soil_factor", 'M1', first=True)
+M('C13', 'normratio-zeros-init', 'multispectral.py', "    out = np.full(arr1.shape, np.nan, dtype=np.float32)\n    rows, cols = arr1.shape", "    out = np.zeros(arr1.shape, dtype=np.float32)\n    rows, cols = arr1.shape", 'M2-init')
+M('C13', 'arvi-loop-short', 'multispectral.py', "    rows, cols = nir_data.shape\n    for y in range(0, rows):\n        for x in range(0, cols):\n            nir = nir_data[y, x]\n            red = red_data[y, x]\n            blue = blue_data[y, x]\n            numerator = (nir - (2.0 * red) + blue)",
+  "    rows, cols = nir_data.shape\n    for y in range(0, rows):\n        for x in range(0, cols - 1):\n            nir = nir_data[y, x]\n            red = red_data[y, x]\n            blue = blue_data[y, x]\n            numerator = (nir - (2.0 * red) + blue)", 'M1-loops')
+M('C13', 'savi-validate-missing', 'multispectral.py', "    validate_arrays(red_agg, nir_agg)\n\n    if not -1.0", "    if not -1.0", 'M6-validate')
+M('C13', 'truecolor-alpha-lt', 'multispectral.py', "a = np.where(np.logical_or(np.isnan(r), r <= nodata), 0, 255)", "a = np.where(np.logical_or(np.isnan(r), r < nodata), 0, 255)", 'M5-alpha')
+M('C13', 'truecolor-dask-channels', 'multispectral.py', "out = da.stack([red, green, blue, alpha], axis=-1)", "out = da.stack([blue, green, red, alpha], axis=-1)", 'M5-channels')
+M('C13', 'sigmoid-sign', 'multispectral.py', "norm = 1 / (1 + np.exp(c * (th - norm)))", "norm = 1 / (1 + np.exp(c * (norm - th)))", 'M5-sigmoid')
+M('C13', 'arvi-other-deviation', 'multispectral.py', "numerator = (nir - (2.0 * red) + blue)", "numerator = (nir - (2.0 * red) - blue)", 'M1', first=True)
+M('C13', 'sipi-transposed-read', 'multispectral.py', "            nir = nir_data[y, x]\n            red = red_data[y, x]\n            blue = blue_data[y, x]\n            numerator = nir - blue",
+  "            nir = nir_data[y, x]\n            red = red_data[y, x]\n            blue = blue_data[y, x - 1]\n            numerator = nir - blue", 'M1-footprint')
+T('C13', 'normratio-if-form', 'multispectral.py', "            if denominator == 0.0:\n                continue\n            else:\n                out[y, x] = numerator / denominator",
+  "            if denominator != 0.0:\n                out[y, x] = numerator / denominator")
+T('C13', 'evi-rearranged', 'multispectral.py', "out[y, x] = gain * (numerator / denominator)", "out[y, x] = (gain * numerator) / denominator", first=True)
+T('C13', 'gci-rearranged', 'multispectral.py', "out[y, x] = nir / green - 1", "out[y, x] = (nir - green) / green", first=True)
+T('C13', 'ndvi-float32-cast', 'multispectral.py', "out = mapper(nir_agg)(nir_agg.data.astype('f4'), red_agg.data.astype('f4'))", "out = mapper(nir_agg)(nir_agg.data.astype(np.float32), red_agg.data.astype(np.float32))")
+T('C13', 'truecolor-bitor', 'multispectral.py', "a = np.where(np.logical_or(np.isnan(r), r <= nodata), 0, 255)", "a = np.where(np.isnan(r) | (r <= nodata), 0, 255)")
